@@ -75,6 +75,8 @@ class Report:
                 self.violations.append(v)
             for h in r.harness_errors:
                 self.harness_errors.append(f"[{group}] {h}")
+            for t in getattr(r, "timeouts", []):
+                self.notes.append(f"[{group}] case exceeded its wall-clock limit (inconclusive): {t}")
             if r.sample is not None and sum(1 for s in self.samples if s.get("group") == group) < 2:
                 s = dict(r.sample)
                 s["group"] = group
